@@ -143,7 +143,8 @@ impl Prop for C02 {
         seq_assumptions()
     }
     fn domains(&self) -> Vec<Box<dyn Domain>> {
-        vec![Box::new(SeqDomain {
+        vec![
+        Box::new(SeqDomain {
             name: "seq",
             quick: 5_000,
             thorough: 200_000,
@@ -164,6 +165,35 @@ impl Prop for C02 {
             owns: |v| matches!(v.rule, Rule::Reopen | Rule::ReopenOpen) || (v.has_tag("reopened") && matches!(v.rule, Rule::ReadLen | Rule::ApiErr | Rule::Panic)),
             nontrivial: |r, _| r.stats.reopen_compares > 0 && (r.stats.writes + r.stats.discard_freed) > 0,
             tweak: force_final_flush,
+            case_tags: no_tags,
+            extra_classes: no_classes,
+            max_sched: 200,
+            max_extra: 24,
+        }),
+        // large host files on small-capacity geometries (C12's growth domain with its two known
+        // findings' shapes removed): refcount blocks are created, the refcount table gets entries
+        // beyond its first 512-byte block, L2 tables spread over many clusters
+        Box::new(SeqDomain {
+            name: "growth",
+            quick: 120,
+            thorough: 5_000,
+            profile: super::c12::growth_profile,
+            cfg: || SeqCfg {
+                sweep: false,
+                check_on_flush: false,
+                reopen_on_flush: true,
+                mapping_check: false,
+                align: false,
+                final_flush: true,
+                release_check: false,
+                ..SeqCfg::default()
+            },
+            owns: |v| matches!(v.rule, Rule::Reopen | Rule::ReopenOpen) || (v.has_tag("reopened") && matches!(v.rule, Rule::ReadLen | Rule::ApiErr | Rule::Panic)),
+            nontrivial: |r, _| r.stats.reopen_compares > 0 && r.stats.writes > 0,
+            tweak: |c, raw, m, e| {
+                super::c12::enlarge_within_initial_tables(c, raw, m);
+                force_final_flush(c, raw, m, e);
+            },
             case_tags: no_tags,
             extra_classes: no_classes,
             max_sched: 200,
